@@ -859,6 +859,31 @@ func (env *SpecEnv) call(e *Expr) (SV, error) {
 			}
 		}
 		return SV{}, fmt.Errorf("dom() on non-map")
+	case "at":
+		// at(m, k): the value stored under key k of map m, unspecified when k is absent (unlike m[k], which is the zero
+		// value then and therefore translates to an if-then-else that cannot serve as an instantiation pattern); meant
+		// for use under a has(m, k) guard
+		if err := need(2); err != nil {
+			return SV{}, err
+		}
+		m, err := argv(0)
+		if err != nil {
+			return SV{}, err
+		}
+		k, err := argv(1)
+		if err != nil {
+			return SV{}, err
+		}
+		if m.typ != nil {
+			if mt, ok := m.typ.Underlying().(*types.Map); ok {
+				mm := m.t
+				for mm.Op == "ite" && mm.Args[2] == tInt(0) {
+					mm = mm.Args[1]
+				}
+				return SV{t: tSelect(mapVal(env.f.mapObj(env.st, mm, mt)), k.t), typ: mt.Elem()}, nil
+			}
+		}
+		return SV{}, fmt.Errorf("at() on non-map")
 	case "content":
 		// content(m): the whole contents (key set and values) of the map object m denotes, as one value: lets a frame
 		// condition say "this map object was not written to" without a quantifier over its keys
@@ -943,8 +968,12 @@ func (env *SpecEnv) call(e *Expr) (SV, error) {
 		if err != nil {
 			return SV{}, err
 		}
-		if x.t.Sort != sortInt || env.f.root.entry == nil {
+		// (in a contract applied at a call site the "entry" is the state just before the call)
+		if x.t.Sort != sortInt || (env.old == nil && env.f.root.entry == nil) {
 			return SV{}, fmt.Errorf("newer: pointer-like argument expected")
+		}
+		if env.old != nil {
+			return SV{t: tGt(x.t, env.old.alloc), typ: boolT}, nil
 		}
 		return SV{t: tGt(x.t, env.f.root.entry.alloc), typ: boolT}, nil
 	case "in_range":
